@@ -58,6 +58,8 @@ type Tree struct {
 	NoOverflow    bool                   `json:"no_overflow"` // premise: every consumer keeps its backlog below the buffer
 	GetCheck      bool                   `json:"get_check"`
 	LogYield      bool                   `json:"log_yield"`
+	BaseRV        int                    `json:"base_rv,omitempty"`
+	ShareHB       bool                   `json:"share_hb,omitempty"` // monitors' handlers come from one reused HandlerBuilder
 	Sim           SimCfg                 `json:"sim"`
 }
 
@@ -121,6 +123,7 @@ func runTree(sci interface{}) {
 	sc := sci.(*Tree)
 	setBufsiz(sc.Bufsiz)
 	srv := world.NewServer("pod")
+	srv.SetBaseRV(sc.BaseRV)
 	srv.F = world.NewFaults(sc.Faults)
 	for k, v := range sc.ListScript {
 		n := 0
@@ -141,6 +144,7 @@ func runTree(sci interface{}) {
 	h.NoRelist = sc.PeriodMs <= 0
 	h.ExpectNoOverflow = sc.NoOverflow
 	h.GetCheck = sc.GetCheck
+	h.ShareHB = sc.ShareHB
 	h.StaticAtReady = sc.Static
 	h.PerNodeOverflow = sc.Prop == "C10"
 	t := &treeRun{sc: sc, h: h, srv: srv, asyncDone: make(chan struct{}, 64)}
@@ -523,7 +527,7 @@ func (t *treeRun) stalledChecks() {
 	h := t.h
 	var w *world.NodeRT
 	for _, n := range h.Nodes {
-		if n.Sub != nil && n.Mon == nil && n.Reader == "eager" && n.Parent == nil && !n.Filtered() && !n.Lost() {
+		if n.Sub != nil && n.Mon == nil && n.Reader == "eager" && n.Parent == nil && !n.Filtered() && !n.Lost() && !n.WeClosed {
 			w = n
 			break
 		}
@@ -533,8 +537,8 @@ func (t *treeRun) stalledChecks() {
 			continue
 		}
 		h.Drain(n)
-		if w == nil || h.AnyFilteredAncestorOrSelf(n) || n.Parent != nil && n.Parent.Filtered() {
-			continue
+		if w == nil || w.ID > n.ID || h.AnyFilteredAncestorOrSelf(n) || n.Parent != nil && n.Parent.Filtered() {
+			continue // (a witness created after n has not seen what n saw before)
 		}
 		// over the same interval: witness events received after n was created
 		var ref []string
